@@ -16,8 +16,15 @@ pub fn create_db(
     client: &Client,
     strategy: ConsensuStrategy,
 ) -> Response {
-    // The name becomes part of the data file names
-    if name.is_empty() || name.contains('/') || name.contains('\0') {
+    // The name becomes part of the data file names and travels as one word of the replication
+    // messages ('|' separates the names of a snapshot): anything that would split it there ends
+    // with the replication thread looking for a database that does not exist
+    if name.is_empty()
+        || name.contains('/')
+        || name.contains('\0')
+        || name.contains('|')
+        || name.chars().any(|c| c.is_whitespace() || c.is_control())
+    {
         return Response::Error {
             msg: String::from("Invalid database name"),
         };
